@@ -44,6 +44,7 @@ for d in sorted(glob.glob(os.path.join(RAW, "*", "m*"))):
             shutil.copy(os.path.join(d, f), os.path.join(dst, f))
     det = detect.get(key, {})
     caught = sorted(c for c, v in det.items() if v.get("exit") == 1)
+    refused = sorted(c for c, v in det.items() if v.get("exit") == 3)
     meta = {
         "id": sid,
         "breaks_property": pid,
@@ -53,6 +54,7 @@ for d in sorted(glob.glob(os.path.join(RAW, "*", "m*"))):
             conf["baseline_tests_passing_with_patch"], conf["baseline_tests"], conf["demo_exit_clean"], conf["demo_exit_mutated"]),
         "checks_run": {c: v for c, v in sorted(det.items())},
         "caught_by": caught,
+        "harness_error_exit3": refused,
         "comment": NEEDS.get(key, {}).get("comment", ""),
     }
     json.dump(meta, open(os.path.join(dst, "meta.json"), "w"), indent=1)
@@ -65,7 +67,7 @@ lines = ["# Seeded changes", "",
          "| id | breaks | changed | caught by (quick tier) | checks run |", "|---|---|---|---|---|"]
 for sid, caught, ran in index:
     meta = json.load(open(os.path.join(OUT, sid, "meta.json")))
-    lines.append("| %s | %s | %s | %s | %s |" % (sid, meta["breaks_property"], meta["changed"].replace("|", "/"), ", ".join(caught) or "**not caught**" + (" — " + meta["comment"] if meta.get("comment") else ""), ", ".join(ran)))
+    lines.append("| %s | %s | %s | %s | %s |" % (sid, meta["breaks_property"], meta["changed"].replace("|", "/"), ", ".join(caught) or "**not caught**" + ((" (exit 3, harness limit reported by " + ", ".join(meta["harness_error_exit3"]) + ")") if meta.get("harness_error_exit3") else "") + (" — " + meta["comment"] if meta.get("comment") else ""), ", ".join(ran)))
     print("%-8s caught by %-30s (ran %s)" % (sid, ",".join(caught) or "-", ",".join(ran)))
 ncaught = sum(1 for _, c, _ in index if c)
 lines += ["", "%d of %d seeded changes are caught by at least one quick-tier check." % (ncaught, len(index)), ""]
